@@ -126,6 +126,10 @@ func checkC06(c *Ctx) {
 		c.Add("traces_validated_against_impl", 1)
 	}
 	wg.Wait()
+	for _, f := range replayLockedSyncContention() {
+		c.Violation(f.Key, f.What, map[string]interface{}{"scenario": "locked-sync-contention"})
+	}
+	c.Add("traces_validated_against_impl", 3)
 	c.Set("cases", int64(len(behs)))
 	c.Set("child_process_cases", int64(nchild))
 	c.Set("exhaustive", c.Thorough())
@@ -525,4 +529,107 @@ func childC06(args []string) {
 	termCall(lg, b.Fe, zapcore.Level(b.Lvl), termMsgOf(b))
 	fmt.Println("C06-RETURNED")
 	os.Exit(0)
+}
+
+// ---- a terminal entry through a lock-protected buffering sink while another goroutine holds that lock ----
+// (Terminal.tla: SinkWrite(i) and SyncSink(i) of the terminal call are separate steps; between them another
+// goroutine may enter the same lock-protected sink. SyncSink must then wait for the lock, not skip.)
+
+type termBufSink struct {
+	mu      sync.Mutex
+	buf     []string
+	flushed []string
+	park    chan struct{} // when non-nil, a Write of "chatter" parks here (inside the lock wrapper)
+	parked  chan struct{}
+}
+
+func (s *termBufSink) Write(p []byte) (int, error) {
+	if strings.Contains(string(p), "chatter") && s.park != nil {
+		close(s.parked)
+		<-s.park
+	}
+	s.mu.Lock()
+	s.buf = append(s.buf, string(p))
+	s.mu.Unlock()
+	return len(p), nil
+}
+func (s *termBufSink) Sync() error {
+	s.mu.Lock()
+	s.flushed = append(s.flushed, s.buf...)
+	s.buf = nil
+	s.mu.Unlock()
+	return nil
+}
+
+type termGate2 struct {
+	reached chan struct{}
+	release chan struct{}
+	once    sync.Once
+}
+
+func (g *termGate2) Write(p []byte) (int, error) {
+	if strings.Contains(string(p), "final-message") {
+		g.once.Do(func() { close(g.reached); <-g.release })
+	}
+	return len(p), nil
+}
+func (g *termGate2) Sync() error { return nil }
+
+func replayLockedSyncContention() (finds []Finding) {
+	for _, lvl := range []zapcore.Level{zapcore.PanicLevel, zapcore.FatalLevel, zapcore.DPanicLevel} {
+		inner := &termBufSink{park: make(chan struct{}), parked: make(chan struct{})}
+		locked := zapcore.Lock(inner)
+		gate := &termGate2{reached: make(chan struct{}), release: make(chan struct{})}
+		// the terminal call writes to the locked buffering sink first, then (outside that lock) to the gate
+		core := zapcore.NewCore(termEnc(), zapcore.NewMultiWriteSyncer(locked, gate), zapcore.DebugLevel)
+		var atHook []string
+		hook := &termHook{snap: func() {
+			inner.mu.Lock()
+			atHook = append([]string(nil), inner.flushed...)
+			inner.mu.Unlock()
+		}}
+		lg := zap.New(core, zap.WithFatalHook(hook), zap.WithPanicHook(hook), zap.Development(), zap.ErrorOutput(zapcore.AddSync(io.Discard)))
+		done := make(chan struct{})
+		go func() {
+			defer close(done)
+			defer func() { recover() }()
+			lg.Log(lvl, termMsgText)
+		}()
+		select {
+		case <-gate.reached:
+		case <-time.After(3 * time.Second):
+			continue
+		}
+		// another goroutine enters the locked sink and stays inside
+		chatter := make(chan struct{})
+		go func() { defer close(chatter); locked.Write([]byte("chatter\n")) }()
+		select {
+		case <-inner.parked:
+		case <-time.After(3 * time.Second):
+			close(gate.release)
+			continue
+		}
+		close(gate.release) // the terminal call goes on to Sync the locked sink: it has to wait for the lock
+		time.Sleep(20 * time.Millisecond)
+		close(inner.park)
+		<-chatter
+		select {
+		case <-done:
+		case <-time.After(5 * time.Second):
+			finds = append(finds, Finding{Key: "C06/terminal-not-run", What: fmt.Sprintf("a %v entry through a lock-protected sink never completed while another writer used the sink", lvl)})
+			continue
+		}
+		ok := false
+		for _, l := range atHook {
+			if strings.Contains(l, "final-message") {
+				ok = true
+			}
+		}
+		if hook.ran != 1 {
+			finds = append(finds, Finding{Key: "C06/terminal-not-run", What: fmt.Sprintf("%v entry: the terminal hook ran %d times", lvl, hook.ran)})
+		} else if !ok {
+			finds = append(finds, Finding{Key: "C06/not-synced-before-terminal", What: fmt.Sprintf("a %v entry was written to a lock-protected buffering sink; another goroutine held that sink's lock when the entry's Sync was due; when the terminal action ran the entry was still in the buffer (flushed so far: %q)", lvl, atHook)})
+		}
+	}
+	return finds
 }
